@@ -94,6 +94,16 @@ CLAIMED = {
         technique="Rocq proof (termination/consumption by induction on fuel and tokens, decimal round trip) + regenerated constants + in-Coq differential correspondence",
         design="5/C15",
     ),
+    "C03": dict(
+        text="Theorems (Props/C03.v): the catalogue regenerated from the 134 class files and functions.yaml is consistent - unique (S,F), every SFDL text "
+             "accepted, classes = YAML on flags and structure tokens, primary/secondary pairing, reply flags and directions (C03_catalogue_consistent, decided by "
+             "evaluation over the finite table on every run); for every function of a table with unique (S,F) and EVERY conforming value the body is the E5 "
+             "encoding and decoding by stream/function alone returns the same class with the value (C03_roundtrip, corollary of C01's unbounded round trip and the "
+             "lookup lemma; C03_header_only). Tied to the code by differential execution over all functions with values generated from their own structures.",
+        note=NOTE_COMMON + " 'plain values read back unchanged' is covered through the get() comparison of the correspondence, not by a separate theorem.",
+        technique="Rocq proof (finite-table evaluation + corollary of the C01 round trip) + translator-regenerated catalogue/data items + in-Coq differential correspondence",
+        design="5/C03",
+    ),
 }
 
 NOT_YET = {}
